@@ -426,7 +426,7 @@ def rule_stored_names_are_fixed_points(repo: Repo, rep: Report, rule: str = "R20
         if isinstance(e, ast.Name):
             if e.id in seen:
                 return True
-            ds = [d for d in L.defs.get(e.id, []) if d[0] != "param"]
+            ds = [d for d in L.defs.get(e.id, []) if d[0] != "param" and not (d[0] == "assign" and isinstance(d[1], ast.Constant) and d[1].value is None)]  # `x = None` = no name yet
             return bool(ds) and all(k == "assign" and v is not None and fixed_point(v, seen | {e.id}) for k, v, _ in ds)
         return False
 
